@@ -465,9 +465,6 @@ def gen_body_parts(rng, max_total, max_parts=50):
     return [blob[a:b] for a, b in zip(pts, pts[1:])]  # parts may be empty
 
 
-_BLOBS = {}
-
-
 def _blob(key, n):
     r = random.Random(key)
     base = bytes(r.getrandbits(8) for _ in range(min(n, 997)))
@@ -480,16 +477,6 @@ def _blob(key, n):
         out += i.to_bytes(4, "big")  # position-dependent so that a shifted / dropped block shows
         i += 1
     return bytes(out[:n])
-
-
-class Script:
-    """One stream's worth of API calls, as a list of (opname, args) executed in order."""
-
-    def __init__(self, name):
-        self.name = name
-        self.ops = []
-        self.sid = None
-        self.done = False
 
 
 class Expect:
